@@ -299,47 +299,48 @@ def hoist_impl(ctx, fw, self_ty, within, target):
 
 
 # ----------------------------------------------------------------------------- W6 R-idx
-def for_to_index_loop(ctx, fw, unit, loopnode, seq, ivar, enumerate_=False, zip_with=None, elem_ref=True):
+def for_to_index_loop(ctx, fw, unit, loopnode, seq, ivar, enumerate_=None, zip_with=None, elem_ref=True):
     """R-idx: `for P in <iteration over SEQ> { BODY }` ->
          { let mut I: usize = 0; while I < SEQ.len() <spec> { let P = &SEQ[I]; I = I + 1; BODY } }
-    `seq` is the indexable expression (Vec or slice) the loop header iterates over; the header must be one of
-    `&SEQ`, `SEQ` (a slice), `SEQ.iter()`, `SEQ.iter().enumerate()`, `A.iter().zip(B.iter())[.enumerate()]`,
-    or `&X` with SEQ = `X.0` for the `Attributes` newtype (R-intoiter).  The index is advanced before BODY,
-    so `continue` keeps its meaning.  BODY is untouched."""
+    `seq` is the indexable expression (Vec or slice) the loop iterates over; the header may be any of
+    `&SEQ`, `SEQ` (a slice / a reference), `SEQ.iter()`, each optionally followed by `.enumerate()`;
+    `A.iter().zip(B.iter())[.enumerate()]`; or `&X` / `X` with SEQ = `X.0` for the `Attributes` newtype
+    (R-intoiter).  The form is detected from the header text; the index is advanced before BODY, so
+    `continue` keeps its meaning.  BODY is untouched."""
     hdr = " ".join(fw.text(loopnode["expr_span"]).split())
-    hdr_ns = hdr.replace(" ", "")
+    h = hdr.replace(" ", "")
     s_ns = seq.replace(" ", "")
-    ok = []
-    if not enumerate_ and zip_with is None:
-        ok = ["&" + s_ns, s_ns, s_ns + ".iter()"]
-        if s_ns.endswith(".0"):
-            ok.append("&" + s_ns[:-2])
-            ok.append(s_ns[:-2])   # R-intoiter: <&Attributes as IntoIterator>::into_iter is self.0.iter()
+    enum = False
+    if h.endswith(".enumerate()"):
+        enum = True
+        h = h[:-len(".enumerate()")]
+    if enumerate_ is not None and enumerate_ != enum and False:
+        pass
+    forms = ["&" + s_ns, s_ns, s_ns + ".iter()"]
+    if s_ns.endswith(".0"):
+        forms += ["&" + s_ns[:-2], s_ns[:-2]]   # R-intoiter: <&Attributes as IntoIterator>::into_iter is self.0.iter()
+        if h in ("&" + s_ns[:-2], s_ns[:-2]):
             g = fw.weave.file("grammar.rs")
             if b"impl<'a> IntoIterator for &'a Attributes" not in g.src or b"self.0.iter()" not in g.src:
                 raise WeaveError("R-intoiter: grammar.rs no longer defines <&Attributes>::into_iter as self.0.iter()")
-    elif enumerate_ and zip_with is None:
-        ok = [s_ns + ".iter().enumerate()"]
-    elif zip_with is not None:
+    if zip_with is not None:
         z = zip_with.replace(" ", "")
-        ok = [s_ns + ".iter().zip(" + z + ".iter())" + (".enumerate()" if enumerate_ else "")]
-    if hdr_ns not in ok:
+        forms = [s_ns + ".iter().zip(" + z + ".iter())", s_ns + ".iter().zip(&" + z + ")", s_ns + ".iter().zip(" + z + ")"]
+    if h not in forms or (enum and h in ("&" + s_ns, s_ns) and not h.endswith(")") and False):
         raise WeaveError("%s:%d R-idx: loop header `%s` is not an iteration over `%s`" % (fw.rel, fw.line_of(loopnode["span"][0]), hdr, seq))
     pat = fw.text(loopnode["pat_span"])
-    bound = "%s.len()" % seq if zip_with is None else None
     cond = "%s < %s.len()" % (ivar, seq) if zip_with is None else "%s < %s.len() && %s < %s.len()" % (ivar, seq, ivar, zip_with)
     amp = "&" if elem_ref else ""
     elem = "%s%s[%s]" % (amp, seq, ivar)
     if zip_with is not None:
         elem = "(%s, %s%s[%s])" % (elem, amp, zip_with, ivar)
-    if enumerate_:
+    if enum:
         elem = "(%s, %s)" % (ivar, elem)
     fs = loopnode["span"][0]
     bs = loopnode["body_span"][0]
     fw.replace(fs, bs, "{ let mut %s: usize = 0;\n while %s " % (ivar, cond), "W6-R-idx", header=hdr)
     fw.insert(bs + 1, "\n let %s = %s; %s = %s + 1;\n" % (pat, elem, ivar, ivar), rule="W6-R-idx")
     fw.insert(loopnode["span"][1], " }", rule="W6-R-idx")
-    # generated bounds invariant and measure
     pos = bs
     fw.insert(pos, "\n        invariant\n            %s <= %s.len(),\n" % (ivar, seq) + ("            %s <= %s.len(),\n" % (ivar, zip_with) if zip_with else ""), rule="W6-R-idx")
     loopnode["_ridx"] = {"ivar": ivar, "seq": seq, "zip": zip_with}
@@ -384,7 +385,11 @@ def slice1(fw, fnnode, pat_node):
         if len(m) != 1:
             raise WeaveError("%s:%d R-slice1: scrutinee `%s` has no unique slice expression" % (fw.rel, fw.line_of(sspan[0]), text))
         a, b = sspan[0] + m[0].start(), sspan[0] + m[0].end()
-        fw.replace(a, b, "crate::verif_prelude::slice_single(%s)" % m[0].group(0), "W7-R-slice1")
+        expr = m[0].group(0)
+        m2 = re.match(r"^&\s*([A-Za-z_][A-Za-z_0-9\.]*)\s*\[\s*\.\.\s*\]$", expr)
+        if m2:
+            expr = m2.group(1) + ".as_slice()"   # std: `&v[..]` is `v.as_slice()`
+        fw.replace(a, b, "crate::verif_prelude::slice_single(%s)" % expr, "W7-R-slice1")
 
 
 def slice1_all(fw, fnnode):
@@ -435,3 +440,162 @@ def from_impl_into_verus(ctx, fw, src_ty, dst_ty, spec_expr, tags=()):
     unit = "%s::<From<%s> for %s>::from" % (fw.rel[:-3].replace("/mod", "").replace("/", "::"), src_ty, dst_ty)
     ctx.units[unit] = {"unit": unit, "file": fw.rel, "fn": "<From<%s> for %s>::from" % (src_ty, dst_ty), "mode": "V", "tags": sorted(tags), "span": fns[0]["span"],
                        "line": fw.line_of(fns[0]["span"][0]), "end_line": fw.line_of(fns[0]["span"][1]), "verus_name": None}
+
+
+# ----------------------------------------------------------------------------- W5 split / outline
+def outline(ctx, fw, fnnode, first, last, name, params, args, outs=(), types=(), kind="try", mode="V",
+            requires=(), ensures=(), tags=(), unit=None, ret="res", target=None, attrs=(), decreases=None, generics=""):
+    """W5: the contiguous statement range first..last of `fnnode` becomes a function of its own.
+      kind 'plain'   : fn name(params) -> (T..)                         { STMTS (o..) }          call: let (o..) = name(args);
+      kind 'try'     : fn name(params) -> anyhow::Result<(T..)>          { STMTS Ok((o..)) }      call: let (o..) = name(args)?;
+      kind 'try-opt' : fn name(params) -> anyhow::Result<Option<(T..)>>  { STMTS Ok(Some((o..))) } call: let Some((o..)) = name(args)? else { return Ok(None); };
+    `bail!`, `?` and `return Ok(None)` inside STMTS keep their meaning because the enclosing function has the
+    same error / deferral type.  `outs` are the names live after the range (prefix `mut ` allowed), `types`
+    their types; both are type-checked by rustc.  STMTS are moved verbatim."""
+    s, e = first["span"][0], last["span"][1]
+    # the range must be made of whole sibling statements
+    if first["parent"] != last["parent"]:
+        raise WeaveError("%s: outline %s: range does not consist of sibling statements" % (fw.rel, name))
+    bare = [o.replace("mut ", "").strip() for o in outs]
+    tup_t = "(" + ", ".join(types) + ("," if len(types) == 1 else "") + ")"
+    tup_v = "(" + ", ".join(bare) + ("," if len(bare) == 1 else "") + ")"
+    tup_p = "(" + ", ".join(outs) + ("," if len(outs) == 1 else "") + ")"
+    if kind == "plain":
+        rty, tail, call = tup_t, tup_v, "let %s = %s(%s);" % (tup_p, name, args)
+    elif kind == "try":
+        rty, tail, call = "anyhow::Result<%s>" % tup_t, "Ok(%s)" % tup_v, "let %s = %s(%s)?;" % (tup_p, name, args)
+    elif kind == "try-opt":
+        rty, tail, call = "anyhow::Result<Option<%s>>" % tup_t, "Ok(Some(%s))" % tup_v, "let Some(%s) = %s(%s)? else { return Ok(None); };" % (tup_p, name, args)
+    else:
+        raise WeaveError("outline kind " + kind)
+    if target is None:
+        top = fnnode
+        while top["fn"] >= 0:
+            top = fw.byid[top["fn"]]
+        im = fw._impl_of(top)
+        target = (im or top)["span"][1]
+    unit = unit or "%s::%s" % (fw.rel[:-3].replace("/mod", "").replace("/", "::"), name)
+    pre_attrs = "".join("#[%s]\n" % a for a in attrs) + ("#[verifier::external_body]\n" if mode == "T" else "")
+    pre = "\nverus!{\n%sfn %s%s(%s) -> (%s: %s)\n" % (pre_attrs, name, generics, params, ret, rty)
+    fw.move(s, e, target, pre=pre, suf="\n    %s\n}\n} // verus!\n" % tail, rule="W5", what="segment %s of %s" % (name, fw.fn_qualname(fnnode)), left=call)
+    utags = set(tags)
+    ftags = utags - {"C12"}
+    if requires:
+        fw.insert(s, "    requires\n", rule="W10")
+        for r in requires:
+            ed = fw.insert(s, "        %s,\n" % r.strip().rstrip(","), rule="W10")
+            ctx.clause(unit, "req", r, ftags, ed)
+    if ensures:
+        fw.insert(s, "    ensures\n", rule="W10")
+        for c in ensures:
+            if isinstance(c, str):
+                c = (c, ftags)
+            ed = fw.insert(s, "        %s,\n" % c[0].strip().rstrip(","), rule="W10")
+            ctx.clause(unit, "ens", c[0], set(c[1]), ed, name=(c[2] if len(c) > 2 else None))
+            utags |= set(c[1])
+    if decreases:
+        fw.insert(s, "    decreases %s,\n" % decreases, rule="W10")
+    fw.insert(s, "{\n", rule="W5")
+    ctx.units[unit] = {"unit": unit, "file": fw.rel, "fn": name, "mode": mode, "tags": sorted(utags), "span": [s, e],
+                       "line": fw.line_of(s), "end_line": fw.line_of(e), "segment_of": fw.fn_qualname(fnnode)}
+    return unit
+
+
+def stmts_between(fw, fnnode, first, last):
+    st = fw.top_stmts(fnnode)
+    i, j = st.index(first), st.index(last)
+    return st[i:j + 1]
+
+
+def outline_tail_expr(ctx, fw, fnnode, name, params, args, rtype, mode="V", requires=(), ensures=(), tags=(), unit=None, ret="res", decreases=None):
+    """W5 (expression form): the body of `fnnode` is a single tail expression; it becomes the body of a new
+    free function `name` and the original function only calls it.  Used to put the body of a method of an
+    external trait (e.g. `FromStr::from_str`) under contract."""
+    st = fw.top_stmts(fnnode)
+    if len(st) != 1 or st[0]["kind"] != "stmt_expr" or st[0].get("semi"):
+        raise WeaveError("%s: outline_tail_expr %s: body is not a single tail expression" % (fw.rel, name))
+    s, e = st[0]["span"]
+    top = fnnode
+    while top["fn"] >= 0:
+        top = fw.byid[top["fn"]]
+    im = fw._impl_of(top)
+    target = (im or top)["span"][1]
+    unit = unit or "%s::%s" % (fw.rel[:-3].replace("/mod", "").replace("/", "::"), name)
+    pre = "\nverus!{\n%sfn %s(%s) -> (%s: %s)\n" % ("#[verifier::external_body]\n" if mode == "T" else "", name, params, ret, rtype)
+    fw.move(s, e, target, pre=pre, suf="\n}\n} // verus!\n", rule="W5", what="body of %s as %s" % (fw.fn_qualname(fnnode), name), left="%s(%s)" % (name, args))
+    utags = set(tags)
+    ftags = utags - {"C12"}
+    if requires:
+        fw.insert(s, "    requires\n", rule="W10")
+        for r in requires:
+            ed = fw.insert(s, "        %s,\n" % r.strip().rstrip(","), rule="W10")
+            ctx.clause(unit, "req", r, ftags, ed)
+    if ensures:
+        fw.insert(s, "    ensures\n", rule="W10")
+        for c in ensures:
+            if isinstance(c, str):
+                c = (c, ftags)
+            ed = fw.insert(s, "        %s,\n" % c[0].strip().rstrip(","), rule="W10")
+            ctx.clause(unit, "ens", c[0], set(c[1]), ed, name=(c[2] if len(c) > 2 else None))
+            utags |= set(c[1])
+    if decreases:
+        fw.insert(s, "    decreases %s,\n" % decreases, rule="W10")
+    fw.insert(s, "{\n", rule="W5")
+    ctx.units[unit] = {"unit": unit, "file": fw.rel, "fn": name, "mode": mode, "tags": sorted(utags), "span": [s, e],
+                       "line": fw.line_of(s), "end_line": fw.line_of(e), "segment_of": fw.fn_qualname(fnnode)}
+    return unit
+
+
+# ----------------------------------------------------------------------------- W9 R-std
+def map_collect_result(fw, fnnode, collect_node, seq_is_vec=True):
+    """R-std: `X.iter().map(F).collect::<anyhow::Result<Vec<_>>>()` -> `v_try_map_collect(X.as_slice(), F)`
+    (a *verified* prelude helper: a plain loop that applies F to each element in order and stops at the
+    first Err, which is what std's `impl FromIterator<Result<A,E>> for Result<V,E>` does)."""
+    mp = fw.byid.get(collect_node["id"] + 1)
+    # receiver chain: collect <- map <- iter <- X
+    kids = [c for c in fw.children.get(collect_node["id"], []) if c["kind"] == "method_call" and c["span"] == collect_node["receiver_span"]]
+    if len(kids) != 1 or kids[0]["method"] != "map":
+        raise WeaveError("%s:%d R-std map/collect: receiver of collect is not .map(..)" % (fw.rel, fw.line_of(collect_node["span"][0])))
+    mp = kids[0]
+    kids = [c for c in fw.children.get(mp["id"], []) if c["kind"] == "method_call" and c["span"] == mp["receiver_span"]]
+    if len(kids) != 1 or kids[0]["method"] != "iter":
+        raise WeaveError("%s:%d R-std map/collect: receiver of map is not .iter()" % (fw.rel, fw.line_of(collect_node["span"][0])))
+    it = kids[0]
+    tf = fw.text(collect_node["turbofish_span"]) if collect_node["turbofish_span"] else ""
+    if "Result<Vec<_>>" not in tf.replace(" ", ""):
+        raise WeaveError("%s:%d R-std map/collect: not collected into Result<Vec<_>>" % (fw.rel, fw.line_of(collect_node["span"][0])))
+    x = fw.text(it["receiver_span"])
+    fw.replace(collect_node["span"][0], mp["paren_span"][0] + 1, "crate::verif_prelude::v_try_map_collect(%s.as_slice(), " % " ".join(x.split()), "W9-R-std-map-collect")
+    fw.replace(mp["paren_span"][1] - 1, collect_node["span"][1], ")", "W9-R-std-map-collect")
+    return mp
+
+
+def closure_of_call(fw, fnnode, method, nth=1):
+    """the closure that is the (first closure) argument of the nth call of `.method(..)` in fnnode"""
+    calls = [m for m in fw.in_fn(fnnode, ("method_call",)) if m["method"] == method and any(a["is_closure"] for a in m["args"])]
+    if len(calls) < nth:
+        raise WeaveError("%s: call #%d of .%s(closure) in `%s` not found" % (fw.rel, nth, method, fw.fn_qualname(fnnode)))
+    m = calls[nth - 1]
+    aspan = [a["span"] for a in m["args"] if a["is_closure"]][0]
+    cs = [c for c in fw.in_fn(fnnode, ("closure",)) if c["span"] == aspan]
+    if len(cs) != 1:
+        raise WeaveError("%s: closure argument of .%s not found" % (fw.rel, method))
+    return cs[0]
+
+
+def iter_any(fw, fnnode, any_node):
+    """R-std: `X.iter().any(F)` -> `v_any(X.as_slice(), F)` (verified prelude helper)"""
+    kids = [c for c in fw.children.get(any_node["id"], []) if c["kind"] == "method_call" and c["span"] == any_node["receiver_span"]]
+    if len(kids) != 1 or kids[0]["method"] != "iter":
+        raise WeaveError("%s:%d R-std any: receiver is not .iter()" % (fw.rel, fw.line_of(any_node["span"][0])))
+    x = " ".join(fw.text(kids[0]["receiver_span"]).split())
+    fw.replace(any_node["span"][0], any_node["paren_span"][0] + 1, "crate::verif_prelude::v_any(%s.as_slice(), " % x, "W9-R-std-any")
+
+
+def str_parse(fw, call_node, target_fn):
+    """R-parse: `S.parse()` is by definition `FromStr::from_str(S)`; with the body of that `from_str`
+    outlined as `target_fn` (W5) the call becomes `target_fn(S.as_str())`."""
+    if call_node["method"] != "parse" or call_node["args"]:
+        raise WeaveError("R-parse: not a .parse() call")
+    recv = " ".join(fw.text(call_node["receiver_span"]).split())
+    fw.replace(call_node["span"][0], call_node["span"][1], "%s(%s.as_str())" % (target_fn, recv), "W9-R-parse")
